@@ -506,7 +506,7 @@ func (x *Exec) binop(op token.Token, a, b Val, ta, tb, tres types.Type, reach Te
 	case token.SUB:
 		return Val{T: tres, L: []Term{Op("bvsub", s, p0, q0)}}
 	case token.MUL:
-		return Val{T: tres, L: []Term{Op("bvmul", s, p0, q0)}}
+		return Val{T: tres, L: []Term{x.c.Arith("bvmul", s, p0, q0)}}
 	case token.QUO, token.REM:
 		nz := Not(Eq(q0, BVLit(0, w)))
 		if fr != nil && fr.top && x.ct != nil && x.ct.NoPanic {
@@ -515,9 +515,9 @@ func (x *Exec) binop(op token.Token, a, b Val, ta, tb, tres types.Type, reach Te
 		}
 		x.assume(Imp(reach, nz))
 		if op == token.QUO {
-			return Val{T: tres, L: []Term{Op(pick("bvsdiv", "bvudiv"), s, p0, q0)}}
+			return Val{T: tres, L: []Term{x.c.Arith(pick("bvsdiv", "bvudiv"), s, p0, q0)}}
 		}
-		return Val{T: tres, L: []Term{Op(pick("bvsrem", "bvurem"), s, p0, q0)}}
+		return Val{T: tres, L: []Term{x.c.Arith(pick("bvsrem", "bvurem"), s, p0, q0)}}
 	case token.AND:
 		return Val{T: tres, L: []Term{Op("bvand", s, p0, q0)}}
 	case token.OR:
